@@ -25,7 +25,6 @@ import (
 	"github.com/meshplus/bitxhub-kit/log"
 	"github.com/meshplus/bitxhub-kit/storage"
 	"github.com/meshplus/bitxhub-kit/storage/blockfile"
-	"github.com/meshplus/bitxhub-kit/storage/leveldb"
 	"github.com/meshplus/bitxhub-kit/types"
 	"github.com/meshplus/bitxhub-model/constant"
 	"github.com/meshplus/bitxhub-model/pb"
@@ -35,6 +34,7 @@ import (
 	"github.com/meshplus/bitxhub/internal/ledger/genesis"
 	"github.com/meshplus/bitxhub/internal/model/events"
 	"github.com/meshplus/bitxhub/internal/repo"
+	ledger2 "github.com/meshplus/eth-kit/ledger"
 	"github.com/sirupsen/logrus"
 )
 
@@ -48,6 +48,8 @@ type ChainOpts struct {
 	ChainID     uint64
 	Strategy    []*repo.Strategy
 	Quiet       bool
+	LedgerType  string // "simple" (default here) or "complex" (repo.DefaultConfig's value: trie-based eth-kit state ledger)
+	LeveldbType string // "normal" (default) or "multi"
 	ProofType   string // "serial" (default here) or "parallel" (repo.DefaultConfig's value)
 }
 
@@ -66,6 +68,7 @@ type Chain struct {
 	blockCh  chan events.ExecutedEvent
 	sub      interface{ Unsubscribe() }
 	bc, st   storage.Storage
+	stAny    interface{}
 	bf       *blockfile.BlockFile
 	NextTime int64
 }
@@ -127,6 +130,12 @@ func NewChain(o ChainOpts) (*Chain, error) {
 	}
 	cfg.RepoRoot = dir
 	cfg.Ledger.Type = "simple"
+	if o.LedgerType != "" {
+		cfg.Ledger.Type = o.LedgerType
+	}
+	if o.LeveldbType != "" {
+		cfg.Ledger.LeveldbType = o.LeveldbType
+	}
 	cfg.Executor.Type = "serial"
 	cfg.Executor.ProofType = "serial"
 	if o.ProofType != "" {
@@ -173,26 +182,37 @@ func defaultStrategies() []*repo.Strategy {
 
 func (c *Chain) open(first bool) error {
 	var err error
-	c.bc, err = leveldb.New(filepath.Join(c.Dir, "storage", "blockchain"))
+	// stores are opened the way internal/app/bitxhub.go opens them
+	c.bc, err = ledger.OpenChainDB(filepath.Join(c.Dir, "storage", "blockchain"), &c.Cfg.Ledger)
 	if err != nil {
 		return err
 	}
-	c.st, err = leveldb.New(filepath.Join(c.Dir, "storage", "ledger"))
+	st, err := ledger.OpenStateDB(filepath.Join(c.Dir, "storage", "ledger"), &c.Cfg.Ledger)
 	if err != nil {
 		return err
 	}
+	c.stAny = st
 	c.bf, err = blockfile.NewBlockFile(c.Dir, c.Logger)
 	if err != nil {
 		return err
 	}
-	c.Ledger, err = ledger.New(c.Repo, c.bc, c.st, c.bf, nil, c.Logger)
+	c.Ledger, err = ledger.New(c.Repo, c.bc, st, c.bf, nil, c.Logger)
 	if err != nil {
 		return fmt.Errorf("ledger.New: %w", err)
 	}
 	c.ViewLdg = &ledger.Ledger{ChainLedger: c.Ledger.ChainLedger}
-	c.ViewLdg.StateLedger, err = ledger.NewSimpleLedger(c.Repo, c.st, nil, c.Logger)
-	if err != nil {
-		return err
+	if c.Cfg.Ledger.Type == ledger.SimpleLedgerTyp {
+		c.st = st.(storage.Storage)
+		c.ViewLdg.StateLedger, err = ledger.NewSimpleLedger(c.Repo, c.st, nil, c.Logger)
+		if err != nil {
+			return err
+		}
+	} else {
+		cl, ok := c.Ledger.StateLedger.(*ledger2.ComplexStateLedger)
+		if !ok {
+			return fmt.Errorf("config wrong ledger type")
+		}
+		c.ViewLdg.StateLedger = cl.Copy()
 	}
 	c.ViewExec, err = executor.New(c.ViewLdg, c.Logger, &appchain.Client{}, c.Cfg, big.NewInt(0))
 	if err != nil {
